@@ -39,6 +39,12 @@ CHECKS = {
          "with sentinel-filled spare capacity and overlapping arguments; outcome class and frame condition validated by TLC against Api.tla; malformed batch entries at every position through Batch.tla"),
  "C14": ("4 C14", "R3: GenerateKey on exact / long / chunked / short / failing / nil readers (bytes consumed, error propagation, coherence with NewKeyFromSeed and crypto/ed25519), accessor freshness by mutation, "
          "Equal over every single-byte difference, length differences and foreign types; each event validated by TLC against Api.tla (GenKeyExpected, EqualExpected)"),
+ "C16": ("4 C16", "R1: the recodings reconstruct every scaled scalar with digits in range (TLC, exhaustive over 16 bits); R2: complete enumeration of the selector domain 32 x 17 on every backend; "
+         "R3: selector entries (niels relation), fixed-base and double-base results validated by TLC in exact arithmetic against the Z_L x Z_8 coordinates; projection audited bit by bit in TLA+"),
+ "C18": ("4 C18", "R3 (sampling with an exact oracle): every field operation of both limb layouts on limb-boundary inputs and on the operand classes the group law produces; TLC computes the represented integers "
+         "from the limbs and checks the residue identity, canonical serialisation, parsing and conditional swap in BigNat arithmetic; R1: decode algorithm over small fields"),
+ "C19": ("4 C19", "R1: recodings exhaustive at scaled size (TLC); R3 (sampling with an exact oracle): reduction of 0..64-byte strings at every quotient size and boundary, Add/Mul/Contract/reduce, both recodings "
+         "(digit sum = value, digit ranges, digit-for-digit equality with the TLA+ transcription), vartime helpers; both limb layouts; all identities evaluated by TLC in BigNat"),
  "C17": ("4 C17", "R1: exhaustive TLC model check of the Bos-Coster heap algorithm (2-bit limbs, formal points): sum preserved at every step, truncated comparisons exact, heap order, result exact unless "
          "flagged design-inexact; R3: every iteration of the real multiScalarmultVartime (heap hook) replayed by TLC on the real 253-bit scalars, result compared with the exact sum; "
          "all-valid batches of all sizes must show Equation(1) and no Fallback event in every chunk (hook trace validated through Batch.tla)"),
